@@ -19,7 +19,7 @@ FILES = ['async/when/when.hpp', 'async/when/all.hpp', 'async/when/all_tuple.hpp'
          'async/detail/when_impl.hpp', 'async/detail/wait_impl.hpp', 'async/when_all.hpp', 'async/when_any.hpp', 'async/join.hpp',
          'async/wait.hpp', 'async/wait_for.hpp', 'async/wait_until.hpp', 'algo/detail/wait_event.hpp']
 INCLUDES = ['yaclib/async/when_all.hpp', 'yaclib/async/when_any.hpp', 'yaclib/async/join.hpp', 'yaclib/async/wait.hpp',
-            'yaclib/async/wait_for.hpp', 'yaclib/async/wait_until.hpp']
+            'yaclib/async/wait_for.hpp', 'yaclib/async/wait_until.hpp', 'yaclib/async/detail/when_impl.hpp']
 LOOPS = ('ForStmt', 'WhileStmt', 'DoStmt', 'CXXForRangeStmt')
 FUNCS = ('CXXMethodDecl', 'FunctionDecl', 'CXXConstructorDecl', 'CXXDestructorDecl')
 MAKERS = ('MakeShared', 'MakeUnique', 'MakeContract', 'MakeContractOn', 'MakeSharedContract', 'MakeFuture', 'MakeSharedPromise')
